@@ -23,7 +23,9 @@ Act == CASE Ev.a = "Draw" -> Draw(Ev.r)
 PClauses == IF Ev.res # "ok" THEN {"call_raised"}
             ELSE IF Ev.a \in {"Generate", "FromConfig"} THEN
                  (IF Ev.dig = Ev.ref THEN {} ELSE {IF Ev.a = "Generate" THEN "generated_mazes_differ_from_reference" ELSE "from_config_differs_from_generate_plus_filters"})
-                 \cup (IF Ev.before = Ev.after THEN {} ELSE {"argument_config_modified"})
+                 \* the statement forbids modifying the argument for the config-driven entry point; for a bare generate call it is
+                 \* only the model's expectation (Layer M)
+                 \cup (IF Ev.before = Ev.after THEN {} ELSE {IF Ev.a = "FromConfig" THEN "argument_config_modified" ELSE "M:generate_modified_its_argument"})
             ELSE {}
 TStep == /\ tid <= Len(Log) /\ l <= Len(T.events)
          /\ Act
